@@ -346,6 +346,7 @@ func init() {
 		c.declare("hashSize", []string{"Ifc"}, "Int")
 		t := sx("hashSize", recv.S)
 		c.fact(sAnd(sx("<=", "1", t), sx("<=", t, "64")))
+		c.ghostIntSet(st, "hsize", t)
 		return Val{K: KInt, S: t, T: types.Typ[types.Int]}
 	}
 	pureExterns["(hash.Hash).Size"] = true
@@ -567,5 +568,22 @@ func init() {
 	pureExterns["(*os.File).Name"] = true
 	externs["(*os.File).Close"] = func(c *FnCtx, st *State, call *ast.CallExpr, recv *Val, args []Val) Val {
 		return Val{K: KIfc, S: c.fresh("err", "Ifc")}
+	}
+}
+
+// (*os.File).Write(p): ghost integers record how many writes went straight to the file, the
+// length of the last one and whether it consisted of zero bytes only (placeholder header).
+func init() {
+	externs["(*os.File).Write"] = func(c *FnCtx, st *State, call *ast.CallExpr, recv *Val, args []Val) Val {
+		p := args[0]
+		key := c.elemKey(types.Typ[types.Uint8])
+		h := c.heapSym(st, key, "Int", 2)
+		allZero := fmt.Sprintf("(forall ((k Int)) (=> (and (<= %s k) (< k (+ %s %s))) (= (%s %s k) 0)))", p.off(), p.off(), p.ln(), h, p.ref())
+		c.ghostIntSet(st, "fwcount", sx("+", c.ghostIntGet(st, "fwcount"), "1"))
+		c.ghostIntSet(st, "fwlen", p.ln())
+		c.ghostIntSet(st, "fwzero", sIte(allZero, "1", "0"))
+		n := c.fresh("n", "Int")
+		c.assume(st, sAnd(sx("<=", "0", n), sx("<=", n, p.ln())))
+		return Val{K: KTuple, F: []Val{{K: KInt, S: n, T: types.Typ[types.Int]}, {K: KIfc, S: c.fresh("err", "Ifc")}}}
 	}
 }
